@@ -122,6 +122,42 @@ func execCase(rc robustCase) (outcome, detail string) {
 			return "err", err.Error()
 		}
 		return "ok", fmt.Sprintf("%d records", n)
+	case "history":
+		// process history: a record with millions of bank allocations is decoded and its bank closed; afterwards a small,
+		// valid input must still decode (result or error, never a panic)
+		sj := `{"type":"record","name":"H","fields":[{"name":"l","type":{"type":"array","items":["null","long"]}},{"name":"s","type":{"type":"array","items":"string"}}]}`
+		sch, err := avro.SchemaFromString(sj)
+		if err != nil {
+			return "err", err.Error()
+		}
+		var out struct {
+			L []*int64 `json:"l"`
+			S []string `json:"s"`
+		}
+		codec, err := sch.Codec(&out)
+		if err != nil {
+			return "err", err.Error()
+		}
+		big := rc.Bytes // the huge record is the input of this case (allocation is measured against it)
+		small := []byte{6, 2, 10, 0, 2, 12, 0, 4, 2, 'a', 6, 'x', 'y', 'z', 0}
+		for round := 0; round < 2; round++ {
+			r := avro.NewReadBuf(big)
+			if err := codec.Read(r, unsafe.Pointer(&out)); err != nil {
+				return "err", "big record: " + err.Error()
+			}
+			r.ExtractResourceBank().Close()
+			out.L, out.S = nil, nil
+			for k := 0; k < 4; k++ {
+				r2 := avro.NewReadBuf(small)
+				err := codec.Read(r2, unsafe.Pointer(&out))
+				r2.ExtractResourceBank().Close()
+				out.L, out.S = nil, nil
+				if err != nil {
+					return "err", err.Error()
+				}
+			}
+		}
+		return "ok", ""
 	case "schema":
 		s, err := avro.SchemaFromString(string(rc.Bytes))
 		if err != nil {
@@ -594,6 +630,18 @@ func driveC06(c *driverCtx) error {
 				}
 			}
 		}
+	}
+
+	// (3c) a small valid record decoded after a record with more than 2^21 allocations went through the same pool
+	{
+		n := 1<<21 + 5000
+		big := make([]byte, 0, 2*n+64)
+		big = appendVar(big, int64(n))
+		for i := 0; i < n; i++ {
+			big = append(big, 2, byte(i%60)*2)
+		}
+		big = append(big, 0, 0)
+		add(robustCase{Entry: "history", Bytes: big, Key: "C06|history|after-huge-record"})
 	}
 
 	// (4) schema text: valid documents, every truncation, single-character damage, wrong token kinds
